@@ -5,7 +5,7 @@
    commutative-ring laws, EVERY shape r x c (r >= 1), EVERY entry, vector and scalar.  No law about conj is needed.
    c01s_wf r c A := A has r rows of length c. *)
 From Coq Require Import List ZArith Bool Ring.
-From DuneV Require Import Params_gen C01_Model C01_Model2 C01_Spec C01_Proofs C01_Proofs_Ops C01_Proofs_Mul C01_Proofs_Views C01_Proofs_Via C01_Proofs_Conv C01_Proofs_Neg C01_Proofs_Extra C01_Proofs_Div C01_Proofs_Zp C01_Proofs_Src C01_Proofs_More.
+From DuneV Require Import Params_gen C01_Model C01_Model2 C01_Spec C01_Proofs C01_Proofs_Ops C01_Proofs_Mul C01_Proofs_Views C01_Proofs_Via C01_Proofs_Conv C01_Proofs_Neg C01_Proofs_Extra C01_Proofs_Div C01_Proofs_Zp C01_Proofs_Src C01_Proofs_More C01_Proofs_Cells.
 Import ListNotations.
 
 Section C01.
@@ -339,6 +339,31 @@ Proof.
   exact (fun R2 K2 h H0 Ha Hm Hs Hc x y k r n p A B =>
            conj (P_vector_hom K K2 h H0 Ha Hm Hs Hc x y k) (P_product_hom K K2 h H0 Ha Hm r n p A B)).
 Qed.
+
+(* SCALAR VIEWS AS REFERENCE CELLS (a view is the address of a scalar in a store; a copy of a view is an alias; AutonomousValue<View>
+   holds the value).  The in-place products as written with the AutonomousValue copy are alias-free for views on distinct scalars:
+   the receiver's cell gets the product and no other cell changes ... *)
+Theorem C01_view_products_alias_free : forall (st : list R) a m, a < length st -> a <> m ->
+  c01_cell_leftmultiply_literal K false st a m = c01_upd st a (c01_mul K (c01_at K st m) (c01_at K st a)) /\
+  c01_cell_rightmultiply_literal K false st a m = c01_upd st a (c01_mul K (c01_at K st a) (c01_at K st m)).
+Proof. exact (P_cells_autonomous K Rth). Qed.
+(* ... whereas a copy declared with the view type (an alias of the receiver's cell) loses the product: the receiver becomes 0 (this is the
+   edit `AutonomousValue<MAT> C` -> `const MAT C`); and so do, for the loops as of de29db7, two views of ONE scalar (F-C01-7) *)
+Theorem C01_view_products_alias_refuted : forall (st : list R) a m, a < length st ->
+  c01_cell_leftmultiply_literal K true st a m = c01_upd st a (c01_O K) /\ c01_cell_rightmultiply_literal K true st a m = c01_upd st a (c01_O K) /\
+  c01_cell_leftmultiply_literal K false st a a = c01_upd st a (c01_O K) /\ c01_cell_rightmultiply_literal K false st a a = c01_upd st a (c01_O K).
+Proof. exact (fun st a m H => conj (proj1 (P_cells_alias_copy K Rth st a m H)) (conj (proj2 (P_cells_alias_copy K Rth st a m H)) (P_cells_same_scalar_literal K Rth st a H))). Qed.
+(* after fix C01-6 (accumulate into the autonomous copy, assign back) the product is right for ANY two cells, equal or not; every cell
+   operation changes the receiver's cell only; + - and unary - (after fix C01-7) do not touch the store at all *)
+Theorem C01_view_cells : forall (f : R -> R -> R) (st : list R) a m j, a < length st -> j <> a ->
+  (c01_cell_leftmultiply K st a m = c01_upd st a (c01_mul K (c01_at K st m) (c01_at K st a)) /\
+   c01_cell_rightmultiply K st a m = c01_upd st a (c01_mul K (c01_at K st a) (c01_at K st m))) /\
+  (c01_at K (c01_cell_leftmultiply K st a m) j = c01_at K st j /\ c01_at K (c01_cell_rightmultiply K st a m) j = c01_at K st j /\
+   c01_at K (c01_cell_inplace K f st a m) j = c01_at K st j /\
+   snd (c01_cell_neg K st a) = st /\ snd (c01_cell_binop K f st a m) = st) /\
+  (fst (c01_cell_neg_literal K st a) = c01_opp K (c01_at K st a) /\
+   snd (c01_cell_neg_literal K st a) = c01_upd st a (c01_opp K (c01_at K st a)) /\ fst (c01_cell_neg K st a) = c01_opp K (c01_at K st a)).
+Proof. exact (fun f st a m j Ha Hj => conj (P_cells_fixed K Rth st a m) (conj (P_cells_frame K f st a m j Ha Hj) (P_cells_neg_literal K st a Ha))). Qed.
 End C01.
 Print Assumptions C01_kernels_dense.
 Print Assumptions C01_kernels_diag.
@@ -374,6 +399,9 @@ Print Assumptions C01_access.
 Print Assumptions C01_resize.
 Print Assumptions C01_diagonal_pattern.
 Print Assumptions C01_operations_promote.
+Print Assumptions C01_view_products_alias_free.
+Print Assumptions C01_view_products_alias_refuted.
+Print Assumptions C01_view_cells.
 
 (* the hypotheses are satisfiable: the carriers used by the correspondence check satisfy the laws *)
 Theorem C01_instance_Z : ring_theory (c01_O c01_Z_ops) (c01_I c01_Z_ops) (c01_add c01_Z_ops) (c01_mul c01_Z_ops) (c01_sub c01_Z_ops) (c01_opp c01_Z_ops) (@eq Z).
@@ -466,3 +494,9 @@ Theorem C01_view_operand_altered_refuted :
   exists x y : Z, snd (c01_view_binop Z.add x y) <> x.
 Proof. exact (conj P_view_binop P_view_binop_refuted). Qed.
 Print Assumptions C01_view_operand_altered_refuted.
+
+Example C01_example_view_cells :
+  c01_cell_leftmultiply_literal c01_Z_ops true [3; 5] 0 1 = [0; 5] /\ c01_cell_leftmultiply_literal c01_Z_ops false [3; 5] 0 1 = [15; 5] /\
+  c01_cell_leftmultiply_literal c01_Z_ops false [3] 0 0 = [0] /\ c01_cell_leftmultiply c01_Z_ops [3] 0 0 = [9] /\
+  snd (c01_cell_neg_literal c01_Z_ops [3] 0) = [-3].
+Proof. exact P_cells_refuted. Qed.
